@@ -35,6 +35,8 @@ def render_slots(rng, lst):
 def gen_set(rng, tmpls):
     s = mkset()
     s["replicas"] = rng.choice([0, 1, 2, 3, 3, 4, 5])
+    if rng.random() < 0.07:
+        s["replicas"] = rng.choice([7, 8, 9, 10])       # ordinals with two digits (name order differs from ordinal order)
     ann = {}
     r = rng.random()
     if r < 0.55:
@@ -230,6 +232,9 @@ def gen_rollout(rng, tmpls=(1, 2, 3)):
     s = mkset()
     s["tmpl"] = b
     s["replicas"] = rng.choice([2, 3, 3, 4, 5])
+    wide = rng.random() < 0.08
+    if wide:
+        s["replicas"] = rng.choice([8, 9, 10])             # a scale-in across the one-digit / two-digit ordinal boundary
     s["policy"] = rng.choice(["OrderedReady", "Parallel", "Parallel"])
     s["strategy"] = "RollingUpdate" if rng.random() < 0.85 else "OnDelete"
     r = rng.random()
@@ -273,7 +278,7 @@ def gen_rollout(rng, tmpls=(1, 2, 3)):
             pods.append(mkpod(o, rv, "Running", False, True, claims=s["claims"]))
     extra = [o for o in range(0, s["replicas"] + 3) if o not in desired]
     for o in extra:
-        if rng.random() < 0.25:
+        if rng.random() < (0.75 if wide else 0.25):
             h = rng.random()
             pods.append(mkpod(o, rng.choice([old, new]), "Running", h < 0.8, h > 0.9, claims=s["claims"]))
     st = s["status"]
